@@ -233,7 +233,22 @@ def rule_progress(ctx, F):
     fn = ctx.need_fn(F, "ts_parser__lex", "P2")
     if not fn:
         return
-    acc = [pt for pt, n in find(fn, "found_external_token = 1")]
+    # the flag that says "the token came from the external scanner": the bool local that ts_parser__lex hands to
+    # ts_subtree_new_leaf (found by that use, not by its name); accepting a scanner token is setting it
+    flags = set()
+    leaf = F.fns.get("ts_subtree_new_leaf")
+    pos = [i for i, p in enumerate(leaf.params) if p["name"] == "has_external_tokens"] if leaf else []
+    for pt, c in fn.calls():
+        if callee_name(c) == "ts_subtree_new_leaf":
+            for i in pos:
+                a = strip(c["a"][i]) if i < len(c.get("a", [])) else {}
+                if a.get("k") == "ref" and a.get("dk") == "local":
+                    flags.add(a.get("id"))
+    acc = []
+    for pt, e in fn.points():
+        for n in own_walk(e):
+            if n.get("k") == "assign" and n.get("op") == "=" and strip(n["l"]).get("k") == "ref" and strip(n["l"]).get("id") in flags and strip(n["r"]).get("k") == "int" and strip(n["r"]).get("v") == 1:
+                acc.append(pt)
     if not acc:
         ctx.bad("P2", "ts_parser__lex:external-token-progress", "ts_parser__lex no longer records an accepted external token")
         return
